@@ -20,14 +20,14 @@ import (
 
 // World is the loaded, type-checked and SSA-built product code of /repo.
 type World struct {
-	Repo   string
-	Module string
-	Fset   *token.FileSet
-	Pkgs   map[string]*packages.Package // role name -> package
-	SSA    map[string]*ssa.Package
-	Prog   *ssa.Program
-	All    []*packages.Package
-	GOOS   string
+	Repo      string
+	Module    string
+	Fset      *token.FileSet
+	Pkgs      map[string]*packages.Package // role name -> package
+	SSA       map[string]*ssa.Package
+	Prog      *ssa.Program
+	All       []*packages.Package
+	GOOS      string
 	instances map[*ssa.Function][]*ssa.Function
 }
 
